@@ -277,6 +277,38 @@ func c07Check(c *c07Ctx, in fmtInput) {
 					Detail: "`evy fmt -c` exits 0 on a text that differs from its formatted form", Input: src, Impl: f1})
 			}
 			r.Dist("fmt-c:unformatted-rejected")
+			// the same verdicts with FILE arguments, one and several per invocation, in every order: `--check` accepts
+			// exactly the formatter's own output, whatever else is on the command line
+			if c.binRuns%2 == 0 {
+				if dir, err := os.MkdirTemp("", "c07files"); err == nil {
+					un, fo, fo2 := filepath.Join(dir, "unformatted.evy"), filepath.Join(dir, "formatted.evy"), filepath.Join(dir, "formatted2.evy")
+					os.WriteFile(un, []byte(src), 0o644)
+					os.WriteFile(fo, []byte(f1), 0o644)
+					os.WriteFile(fo2, []byte(f1), 0o644)
+					for _, tc := range []struct {
+						want bool // exit 0 expected
+						args []string
+					}{{true, []string{fo}}, {false, []string{un}}, {true, []string{fo, fo2}}, {false, []string{un, fo}}, {false, []string{fo, un}},
+						{false, []string{un, fo, fo2}}, {false, []string{fo, un, fo2}}} {
+						res := runBin(c.bin, "", 10*time.Second, append([]string{"fmt", "-c"}, tc.args...)...)
+						if (res.Exit == 0) != tc.want {
+							names := make([]string, len(tc.args))
+							for i, a := range tc.args {
+								names[i] = filepath.Base(a)
+							}
+							key := "fmt-check-accepts-unformatted-file"
+							if tc.want {
+								key = "fmt-check-rejects-formatted-file"
+							}
+							r.Violate(Violation{Kind: "property", Key: key,
+								Detail: fmt.Sprintf("`evy fmt -c %s` exits %d (stderr %q)", strings.Join(names, " "), res.Exit, strings.TrimSpace(res.Stderr)),
+								Input:  src, Impl: f1})
+						}
+					}
+					os.RemoveAll(dir)
+					r.Dist("fmt-c:file-arguments-checked")
+				}
+			}
 		}
 		if (own.Exit == 0) != (f2 == f1) {
 			r.Violate(Violation{Kind: "correspondence", Key: "fmt-check-model-differs",
